@@ -282,6 +282,23 @@ def depends_nonpointwise(term, sym):
     return hit[0] if hit else None
 
 
+FIXED_AXIS_JOINS = {"dstack": 2, "column_stack": 1, "hstack": 1, "vstack": 1, "row_stack": 1}
+
+
+def fixed_axis_stack(term, sym):
+    """np.dstack / column_stack / hstack / vstack of arrays shaped like `sym` under a reshape: the join axis is fixed (2 / 1 / 0), so the
+    reshape to sym.shape + (...) is elementwise only up to that rank."""
+    hit = []
+
+    def f(x):
+        if isinstance(x, App) and x.fn in ("reshape", "m:reshape") and x.args:
+            inner = x.args[0]
+            if isinstance(inner, App) and inner.fn in FIXED_AXIS_JOINS and any(a == sym for a in atoms_of(inner)):
+                hit.append(inner.fn)
+    walk(term, f)
+    return hit[0] if hit else None
+
+
 def _is_broadcast_index(idx):
     items = idx.items if isinstance(idx, Tup) else [idx]
     return all(i == Const(None) or i == Const(Ellipsis) or (isinstance(i, App) and i.fn == "slice" and all(a == Const(None) for a in i.args)) for i in items)
@@ -660,6 +677,12 @@ def shapes_and_aliases(ctx, chk):
             sh = libmodel.shape_of(m)
             want = Tup([Star(App("shape", (T,))), Const(2), Const(2)])
             bad = depends_nonpointwise(m, T)
+            fixed = fixed_axis_stack(m, T)
+            if fixed is not None:
+                chk.violation("R10.2", SCORES + ".cm", inst + ":" + fixed, "cells joined by np.%s (a FIXED axis) and reshaped to t.shape + (2, 2): %s" % (fixed, show(m, 140)),
+                              "cells stacked on a NEW LAST axis (np.stack(axis=-1) / element stores at [..., i, j]): a fixed-axis join followed by reshape mixes the "
+                              "counts of different thresholds once the threshold has more dimensions than the join assumes", ctx.where(SCORES + ".cm"))
+                continue
             if sh is not None and sh == want and bad is None:
                 chk.hold("R10.2", inst, "cm(t).shape = t.shape + (2, 2); cells written at (..., i, j) are elementwise in t")
             elif bad is not None and ("attr:T" in bad or "transpose" in bad):
